@@ -3,12 +3,16 @@ through RLIMIT_FSIZE (C22), directory trees and configurations (C23), option com
 import os, resource, shutil, subprocess
 import vlib
 
-TEXTS = ["g0", "g1", "g2", "bad_syntax", "bad_conflict"]
-VALID = {"g0": True, "g1": True, "g2": True, "bad_syntax": False, "bad_conflict": False}
+# valid texts first (the Coq instantiation of C21 says: text k is valid iff k < NVALID)
+TEXTS = ["g0", "g1", "g2", "g3", "g3_crlf", "bad_syntax", "bad_conflict"]
+VALID = {"g0": True, "g1": True, "g2": True, "g3": True, "g3_crlf": True, "bad_syntax": False, "bad_conflict": False}
+NVALID = 5
+# texts that differ from each other only in their line terminators
+SIBLINGS = {"g3": ["g3_crlf"], "g3_crlf": ["g3"]}
 
 
 def text_of(name):
-    return open(os.path.join(vlib.ROOT, "corpus", "build", name + ".lalrpop")).read()
+    return open(os.path.join(vlib.ROOT, "corpus", "build", name + ".lalrpop"), newline="").read()
 
 
 def run_lalrpop(lal, args, cwd, fsize=None, env=None, timeout=1200):
